@@ -37,6 +37,53 @@ def _env():
     return pretty_repr, cell_len
 
 
+GUIDE = "\u2502"            # what Text.with_indent_guides draws into the indentation
+
+
+def render_via(obj, o):
+    """The other public ways to the same representation (all print it to a console of the given width without wrapping):
+       via = pretty : Console.print(Pretty(obj, indent_size, max_length, max_string, expand_all, margin, insert_line, indent_guides))
+             pprint : rich.pretty.pprint(obj, console=, indent_guides=, max_length=, max_string=, expand_all=)   (indent 4)
+             print  : Console.print(obj)  - a container handed to print is pretty-printed                        (all defaults)
+    The console is `margin` cells wider than o["w"]: the representation has to fit o["w"].  pprint / print leave the
+    console's word wrapping on (their Pretty is built with no_wrap=False): they are only used at widths no line of any layout
+    can exceed (line_bound), where wrapping and cropping have nothing to do.  Lexical projection of what was
+    printed (trusted): the final newline is dropped, the blank first line of insert_line is dropped, indent guide characters
+    inside the leading indentation are read as the blanks they replace."""
+    from rich.console import Console
+    from rich.pretty import Pretty, pprint
+    via = o["via"]
+    mg = o.get("mg", 0)
+    console = Console(width=o["w"] + mg, file=io.StringIO(), color_system=None, legacy_windows=False, force_terminal=False)
+    ml = None if o["ml"] < 0 else o["ml"]
+    ms = None if o["ms"] < 0 else o["ms"]
+    if via == "pretty":
+        # no_wrap / overflow="ignore": the console must not re-wrap or crop the representation (that is another layer, C02)
+        console.print(Pretty(obj, indent_size=o["ind"], max_length=ml, max_string=ms, expand_all=o["xa"], margin=mg,
+                             insert_line=bool(o.get("il")), indent_guides=bool(o.get("ig")), no_wrap=True, overflow="ignore",
+                             justify=None if o.get("jus", "none") == "none" else o["jus"]), soft_wrap=True)
+    elif via == "pprint":
+        pprint(obj, console=console, indent_guides=bool(o.get("ig")), max_length=ml, max_string=ms, expand_all=o["xa"])
+    elif via == "print":
+        console.print(obj, soft_wrap=True)
+    else:
+        raise ValueError(via)
+    text = console.file.getvalue()
+    if text.endswith("\n"):
+        text = text[:-1]
+    if o.get("il") and text.startswith("\n"):
+        text = text[1:]
+    if o.get("ig"):
+        out = []
+        for line in text.split("\n"):
+            k = 0
+            while k < len(line) and line[k] in (" ", GUIDE):
+                k += 1
+            out.append(line[:k].replace(GUIDE, " ") + line[k:])
+        text = "\n".join(out)
+    return text
+
+
 # ---- atoms ------------------------------------------------------------------------------------
 class Atoms:
     """Leaf literal <-> atom id (1-based).  Two leaves are the same atom iff they have the same
@@ -221,8 +268,11 @@ def execute(recipe, o, env):
     v = abstract(obj, atoms)
     err, text, lines = "", None, []
     try:
-        text = pretty_repr(obj, max_width=o["w"], indent_size=o["ind"], expand_all=o["xa"],
-                           max_length=None if o["ml"] < 0 else o["ml"], max_string=None if o["ms"] < 0 else o["ms"])
+        if o.get("via", "repr") == "repr":
+            text = pretty_repr(obj, max_width=o["w"], indent_size=o["ind"], expand_all=o["xa"],
+                               max_length=None if o["ml"] < 0 else o["ml"], max_string=None if o["ms"] < 0 else o["ms"])
+        else:
+            text = render_via(obj, o)
     except Exception as e:      # a crash inside Rich is an observation
         err = "raised " + type(e).__name__
     if text is not None:
@@ -241,7 +291,8 @@ BYTES = [b"", b"ab", b"a\nb", b"\xff\x00", b"it's", b'q"', b"0123456789"]
 INTS = [0, 1, 2, 3, 7, 9, 10, 42, 99, 100, 255, 1000, -1, -5, -123, 2 ** 40, 10 ** 25]
 FLOATS = [0.5, -1.25, 1e22, 3.14159, -0.0, 0.0, 100.123, 1e-07, 2.0]
 CODES = {"i": [0, 1, -5, 42, 1000], "I": [0, 1, 42, 1000], "b": [0, 1, -5, 42], "d": [0.5, -1.25, 2.0, 1e22],
-         "u": ["a", "古", "'", "\n"]}
+         "u": ["a", "古", "'", "\n"], "B": [0, 7, 255], "h": [0, -5, 32767], "H": [0, 65535], "l": [0, -1, 2 ** 31 - 1],
+         "q": [0, -(2 ** 40), 2 ** 62], "Q": [0, 2 ** 63], "f": [0.5, -1.25, 2.0]}
 
 
 class Gen:
@@ -325,8 +376,11 @@ class Gen:
         return node
 
     def key(self):
-        if self.rng.random() < 0.12:
+        x = self.rng.random()
+        if x < 0.12:
             return {"t": "tuple", "id": self.new_id(), "items": [self.leaf(True) for _ in range(self.rng.randint(0, 3))]}
+        if x < 0.16:
+            return {"t": "frozenset", "id": self.new_id(), "items": [self.leaf(True) for _ in range(self.rng.randint(0, 2))]}
         return self.leaf(True)
 
     def add_cycle(self, root):
@@ -372,7 +426,7 @@ class Gen:
         return root
 
 
-def options(rng, width_hint):
+def options(rng, width_hint, root=None):
     x = rng.random()
     if x < 0.3:
         w = rng.randint(1, 200)
@@ -382,7 +436,54 @@ def options(rng, width_hint):
         w = rng.randint(1, max(1, min(200, width_hint)))
     ml = rng.choice([-1, -1, -1, -1, 0, 1, 2, 3, 5, 10])
     ms = rng.choice([-1, -1, -1, -1, 0, 1, 2, 5, 10, 20])
-    return dict(w=w, ind=rng.choice([4, 4, 4, 2, 1, 3, 8, 0]), xa=rng.random() < 0.15, ml=ml, ms=ms)
+    return with_via(rng, dict(w=w, ind=rng.choice([4, 4, 4, 2, 1, 3, 8, 0]), xa=rng.random() < 0.15, ml=ml, ms=ms), root=root)
+
+
+def _w(s):
+    return sum(1 if ord(c) < 0x300 else 2 for c in s)
+
+
+def line_bound(obj, ind, d=0, key=0, path=()):
+    """an upper bound of the cell width of any line any layout of the value can contain (independent of the tree under test:
+    2 cells for every code point >= U+0300, 48 cells for the longest opening brace + the `... +N` line)"""
+    if type(obj) not in KIND_OF or id(obj) in path:
+        return d * ind + key + max(_w(repr(obj)), 8) + 2
+    path = path + (id(obj),)
+    best = d * ind + key + 48
+    if isinstance(obj, dict):
+        for k, v in obj.items():
+            best = max(best, line_bound(v, ind, d + 1, _w(repr(k)) + 2, path))
+    else:
+        for v in obj:
+            best = max(best, line_bound(v, ind, d + 1, 0, path))
+    return best
+
+
+def with_via(rng, o, p=0.4, root=None):
+    """choose the entry point: pretty_repr, or (probability p) one of the printing ones, whose fixed options override.
+    Console.print pretty-prints what is a Mapping / Sequence / Set (not a str): array and bare leaves do not go that way"""
+    if rng.random() >= p:
+        return o
+    printable = root is not None and root.get("t") in ("list", "tuple", "dict", "set", "frozenset", "deque", "counter", "defaultdict")
+    via = rng.choice(["pretty", "pretty", "pprint", "print"] if printable else ["pretty", "pprint"])
+    o = dict(o, via=via)
+    if via == "pretty":
+        # (indent guides need an indent to draw into: indent_size 0 with guides is not generated)
+        o.update(mg=rng.choice([0, 0, 1, 3, 12]), il=rng.random() < 0.25, ig=rng.random() < 0.4 and o["ind"] > 0,
+                 jus=rng.choice(["none", "none", "left", "default"]))
+    else:
+        if via == "pprint":
+            o.update(ind=4, ig=rng.random() < 0.6)
+        else:
+            o.update(ind=4, xa=False, ml=-1, ms=-1)
+        try:
+            lo = line_bound(build(root), 4)
+        except Exception:
+            return dict((k, v) for k, v in o.items() if k != "via")
+        if lo > 200:
+            return dict((k, v) for k, v in o.items() if k not in ("via", "ig"))
+        o["w"] = rng.choice([lo, lo + 1, rng.randint(lo, min(200, lo + 40)), rng.randint(lo, 200)])
+    return o
 
 
 def systematic():
@@ -588,21 +689,28 @@ def run(chk: Check):
     os.environ.setdefault("JAVA_TOOL_OPTIONS", "-Xss256m")
     env = _env()
     _tick(chk, "start")
-    chk.rule = ("a case is one call pretty_repr(value, max_width, indent_size, expand_all, max_length, max_string) on a distinct "
-                "(value recipe, options); values: every abstract value of the TLC domain (M2) instantiated, a systematic family "
+    chk.rule = ("a case is one call pretty_repr(value, max_width, indent_size, expand_all, max_length, max_string) - or the same "
+                "representation obtained by printing Pretty(value, ..., margin, insert_line, indent_guides, justify) / pprint(value, ...) / "
+                "the bare container to a console of that width - on a distinct (value recipe, options); values: every abstract value of the TLC domain (M2) instantiated, a systematic family "
                 "(each container kind with 0-3 items inside each kind), seeded random values nested up to 6 deep over "
                 "list/tuple/dict/set/frozenset/deque/Counter/defaultdict/array with str/bytes/int/float/bool/None leaves, shared and "
                 "cyclic references; non-trivial = the output has more than one line, or an abbreviation, or a cycle marker")
     chk.trusted = ["stdlib tokenize + drivers/c16.py:project (token -> kind/atom id/gap; '-' NUMBER merged into one literal)",
                    "drivers/c16.py:Atoms (leaf <-> atom id by ast.literal_eval, type and equality; cell width of a literal by rich.cells.cell_len of the tree under test)",
                    "drivers/c16.py:abstract (python object -> abstract value; a container met again on the current path is a cycle)",
-                   "drivers/c16.py:build (recipe -> python object)"]
+                   "drivers/c16.py:build (recipe -> python object)",
+                   "drivers/c16.py:render_via (printed text -> representation: final newline and insert_line's blank first line dropped, "
+                   "indent guide characters in the leading indentation read as blanks)"]
     chk.assumptions = [
         "float leaves are finite (repr of nan/inf is not a literal)",
         "defaultdict factories are classes; `<class 'T'>` (Python's own repr convention, not an expression) is read as the factory T",
         "deque maxlen is not part of the compared value (Python's == ignores it; Rich does not print it)",
         "dict keys are leaves or tuples of leaves; dicts/Counters are compared in insertion order, sets as sets",
         "OneLineIfFits is demanded only for values built purely from list/tuple/dict/set/frozenset (the kinds the statement names), without cycles, when no abbreviation limit is exceeded and expand_all is off",
+        "printing entry points: Pretty is printed with no_wrap / overflow=ignore (the console's own wrapping and cropping of an "
+        "over-long line is another layer); pprint and Console.print(container) keep word wrapping on and are used only at widths "
+        "that no line of any layout of the value can exceed (drivers/c16.py:line_bound); indent guides only with indent_size >= 1; "
+        "justify none / left / default",
         "abbreviation clauses judge the reported counts and that the shown items/characters are a prefix; whether and where Rich abbreviates is implementation-shaped (model, DRIFT only)",
     ]
     cases = []          # (recipe, opts, origin)
@@ -660,7 +768,7 @@ def run(chk: Check):
             ws = sorted(set([full, full - 1, max(1, full - 3)] + [chk.rng.randint(1, full) for _ in range(per_value)]))
             for w in ws:
                 if w >= 1:
-                    cases.append((rec, dict(w=w, ind=chk.rng.choice([4, 4, 2, 1]), xa=False, ml=-1, ms=-1), "tlc"))
+                    cases.append((rec, with_via(chk.rng, dict(w=w, ind=chk.rng.choice([4, 4, 2, 1]), xa=False, ml=-1, ms=-1), 0.25, rec), "tlc"))
             cases.append((rec, dict(w=full, ind=4, xa=True, ml=-1, ms=-1), "tlc"))
         # ---- systematic family
         for rec in systematic():
@@ -668,9 +776,9 @@ def run(chk: Check):
             ws = range(1, full + 2) if chk.thorough else sorted(set([1, 6, full - 1, full, full + 1] + [chk.rng.randint(1, full + 1) for _ in range(2)]))
             for w in ws:
                 if w >= 1:
-                    cases.append((rec, dict(w=w, ind=4, xa=False, ml=-1, ms=-1), "systematic"))
+                    cases.append((rec, with_via(chk.rng, dict(w=w, ind=4, xa=False, ml=-1, ms=-1), 0.25, rec), "systematic"))
             for ml in (0, 1, 2):
-                cases.append((rec, dict(w=chk.rng.randint(1, full + 1), ind=2, xa=False, ml=ml, ms=-1), "systematic"))
+                cases.append((rec, with_via(chk.rng, dict(w=chk.rng.randint(1, full + 1), ind=2, xa=False, ml=ml, ms=-1), 0.25, rec), "systematic"))
             cases.append((rec, dict(w=80, ind=4, xa=True, ml=-1, ms=-1), "systematic"))
         # ---- random values
         g = Gen(chk.rng)
@@ -678,7 +786,11 @@ def run(chk: Check):
             rec = g.case()
             full = one_line_width(rec, env)
             for _ in range(chk.pick(3, 4)):
-                cases.append((rec, options(chk.rng, full), "random"))
+                cases.append((rec, options(chk.rng, full, rec), "random"))
+        # ---- bare leaves (a value "built from literals" need not be a container)
+        for v in ["", "a", "Hello World", "it's", "a\nb", "こんにちは", "x" * 30, b"", b"0123456789", 0, -5, 10 ** 25, 0.5, True, None]:
+            for ms in (-1, 0, 2, 40):
+                cases.append(({"leaf": repr(v)}, with_via(chk.rng, dict(w=chk.rng.choice([1, 8, 80]), ind=4, xa=False, ml=-1, ms=ms), 0.3), "leaf"))
     _tick(chk, "generate")
     judge_cases(chk, cases, env)
     _tick(chk, "M3")
